@@ -26,7 +26,8 @@
 //!   fn 11 form 1: the source is the BYTE image [u8; N * size_of T] (alignment 1) of the same values,
 //!        form 2: the target is GenericArray<u8, U{L * size_of T}> and the bytes are observed
 //!        (const_transmute "is transmute": only the sizes have to agree, not the alignments)
-//!   fn 12 form 3 / 4: the repeat forms with a path to a const item of a NON-Copy type as operand
+//!   fn 12 form 3 / 4: the repeat forms with a path to a const item of a NON-Copy type as operand;
+//!        form 5: `arr![x; {K}]` inside a const fn generic over `const K: usize`
 //!   fn 13 form 1: const_default for a length of 2^19 / 2^20, observed at four places without a
 //!        loop (run `c18big`, `--big`: direct oracles only)
 //! OBS  [1, const values...] compiled and evaluated | [2] const evaluation panicked
@@ -499,6 +500,16 @@ fn gen_module(id: usize, c: &Case, exp: &Exp, with_const: bool) -> String {
             );
             items = format!("pub struct NoCopy(pub T); const CK: NoCopy = NoCopy({});", lit(ty, val(ty, 0)));
             refitem = format!("pub const REF: GenericArray<NoCopy, N> = {e};");
+        }
+        12 if c.form == 5 => {
+            // the expression-length repeat form inside an item generic over `const K: usize` (braced K), used
+            // from a const item: the expansion must not introduce an item that cannot see K
+            items = format!(
+                "pub const fn gk<const K: usize>() -> GenericArray<T, generic_array::ConstArrayLength<K>> where generic_array::typenum::Const<K>: generic_array::IntoArrayLength {{ arr![{}; {{K}}] }}",
+                lit(ty, val(ty, 0))
+            );
+            let _ = write!(body, "let g: GenericArray<T, N> = gk::<{n}>(); let s = g.as_slice(); {read_s}");
+            refitem = format!("pub const REF: GenericArray<T, N> = gk::<{n}>();");
         }
         12 => {
             let e = match c.form {
@@ -1035,7 +1046,7 @@ fn enumerate(tier: &str, big: bool) -> Vec<Case> {
                     cs.push(Case { f: 11, n, l: mm, ty, form: 0 });
                 }
             }
-            for form in 0..5 {
+            for form in 0..6 {
                 cs.push(Case { f: 12, n, l: 0, ty, form });
             }
             // const_transmute across alignments: from the byte image, and to bytes (sizes agree or not)
